@@ -218,6 +218,36 @@ def encodings(pkg: Pkg, proto_name: str, pool):
     return res
 
 
+def same_name_scenario(ctx, home):
+    """two distinct types with the same simple name in different namespaces, both reachable from one protocol:
+    a wire-affecting edit to either of them must change the schema"""
+    def mk(lib_t="int32", loc_t="int32"):
+        lib = Pkg("Lib", [Rec("Sample", [("value", P(lib_t))]), En("Kind", [("a", 0), ("b", 1)], None, False, False)])
+        return Pkg("App", [Rec("Sample", [("id", P(loc_t)), ("inner", N("Sample", (), "Lib")), ("kind", N("Kind", (), "Lib"))]),
+                           En("Kind", [("x", 0), ("y", 5)], None, False, True),
+                           Proto("SameName", [("s", S(N("Sample"))), ("k", N("Kind"))])], [lib])
+    base = mk()
+    root = os.path.join(ctx.workdir, "cases", "samename")
+    s0, p0 = schemas_of(os.path.join(root, "base"), base, files_for(base), home)
+    ctx.ev()
+    if s0 is None:
+        ctx.violation("generate-failed", "same-name scenario rejected: %s" % cli.clean(p0.stderr)[:300], {"case_dir": root})
+        return
+    for name, variant in (("imported-type-edited", mk(lib_t="float64")), ("local-type-edited", mk(loc_t="string"))):
+        s1, p1 = schemas_of(os.path.join(root, name), variant, files_for(variant), home)
+        ctx.ev()
+        ctx.case(("samename", name))
+        ctx.count("samename")
+        vals = [[[1, [2], 0]], 5]
+        try:
+            enc = [Codec(m).encode_stream(m.find("SameName"), "{}", vals) for m in (base, variant)]
+        except Exception:
+            enc = [b"a", b"b"]
+        if s1 is not None and enc[0] != enc[1] and s1["SameName"]["cpp"] == s0["SameName"]["cpp"]:
+            ctx.violation("encoding-changed-schema-same:same-simple-name", "%s: the encoding of SameName changes but its schema text does not (types Lib.Sample / App.Sample share a simple name)" % name, {"case_dir": root})
+    shutil.rmtree(root, ignore_errors=True)
+
+
 def run(ctx):
     common.build_yardl()
     quick = ctx.tier == "quick"
@@ -339,6 +369,7 @@ def run(ctx):
 
     for s in [x for x in pmap(one, bases, workers=8) if x][:6]:
         ctx.sample(s)
+    same_name_scenario(ctx, home)
 
 
 def replay(ctx, path):
